@@ -68,6 +68,13 @@ type ElemHidden struct {
 	Y      string
 }
 
+// ElemT is a slice element struct holding a text-unmarshalable struct by value (inside slice elements nothing is
+// pointerified).
+type ElemT struct {
+	When time.Time
+	N    int
+}
+
 // RefElem is an array/slice element struct that holds reference content.
 type RefElem struct {
 	Tags map[string]int
@@ -491,6 +498,10 @@ func buildLeaves() []*Leaf {
 		{Name: "[]Elem", Type: reflect.TypeOf([]Elem{}), Caps: CapRef | CapFile,
 			Gen: func(r *fw.Rand, uniq int) reflect.Value {
 				return rv([]Elem{{X: uniq, Y: GenString(r, uniq)}, {X: -uniq}})
+			}},
+		{Name: "[]ElemT", Type: reflect.TypeOf([]ElemT{}), Caps: CapRef,
+			Gen: func(r *fw.Rand, uniq int) reflect.Value {
+				return rv([]ElemT{{When: time.Date(2001+uniq%20, 2, 3, 4, 5, 6, 0, time.UTC), N: uniq}, {N: -uniq}})
 			}},
 		{Name: "[]ElemHidden", Type: reflect.TypeOf([]ElemHidden{}), Caps: CapRef,
 			Gen: func(r *fw.Rand, uniq int) reflect.Value {
